@@ -3,6 +3,7 @@ import StrumModel.Overlap
 import StrumModel.Display
 import StrumModel.Iter
 import StrumModel.Repr
+import StrumModel.Message
 /-
 Dispatch of `op` lines to the model. One answer line per op.
 -/
@@ -119,6 +120,12 @@ def runIterHistory (d : EnumDef) (m : Mode) : List IterState → List String →
           (runIterHistory d m slots ts).map
             (String.intercalate "," [showItem d r1.2, showItem d r2.2, showItem d r3.2] :: ·)
       | _ => some ["bad-tok"]
+
+def showMatchOut (o : MatchOut Bytes) : String :=
+  match o with
+  | .val (some b) => encodeStr b
+  | .val none => "-"
+  | .nonExhaustive => "CE:nonExhaustive"
 
 def runOp (d : EnumDef) (args : List String) : String :=
   match args with
@@ -249,6 +256,22 @@ def runOp (d : EnumDef) (args : List String) : String :=
           match (rustcDiscr d)[(d.variants.map (·.ident)).idxOf v.ident]? with
           | some x => toString x
           | none => "?") ++ " pt=ok size_ok=true"
+  | ["msg", k] =>
+    match findVariant d k with
+    | none => "bad-op"
+    | some v =>
+      "message=" ++ showMatchOut (getMessage d v.ident) ++ " detailed=" ++ showMatchOut (getDetailed d v.ident) ++
+      " doc=" ++ showMatchOut (getDocumentation d v.ident) ++ " ser=" ++
+      (match getSerializationsOf d v.ident with
+       | .val (some l) => String.intercalate "," (l.map encodeStr)
+       | _ => "?")
+  | ["prop", k, key] =>
+    match findVariant d k, decodeStr key with
+    | some v, some key =>
+      "str=" ++ (match getProp .str d v.ident key with | some (.str s) => encodeStr s | _ => "-") ++
+      " int=" ++ (match getProp .int d v.ident key with | some (.int i) => toString i | _ => "-") ++
+      " bool=" ++ (match getProp .bool d v.ident key with | some (.bool b) => (if b then "1" else "0") | _ => "-")
+    | _, _ => "bad-op"
   | ["nooverlap"] => if noOverlapB d then "1" else "0"
   | ["spellings", k] =>
     match decodeStr k with
